@@ -132,6 +132,7 @@ def data_session(col, binpath, vmon, rng, tag, scratch):
         if rows is None:
             if not sess.p.alive():
                 col.add("C17", f"C17|terminated_before_quit|{sess.panic_location()}", "radar died during a C18 session", inp)
+                col.add("C18", f"C18|radar_died_while_showing_data|{sess.panic_location()}", "radar terminated during a data session: nothing is shown any more", inp)
                 return
             raise Inconclusive("Airplanes table not on screen")
         ok = rows_equal(col, rows, sim, "", inp, "after_feed")
@@ -187,6 +188,7 @@ def data_session(col, binpath, vmon, rng, tag, scratch):
         if rows2 is None:
             if not sess.p.alive():
                 col.add("C17", f"C17|terminated_before_quit|{sess.panic_location()}", "radar died during view controls", dict(inp, view=seq))
+                col.add("C18", f"C18|radar_died_while_showing_data|{sess.panic_location()}", "radar terminated during a data session: nothing is shown any more", inp)
                 return
             raise Inconclusive("Airplanes table not on screen after view controls")
         if ok:
@@ -219,6 +221,12 @@ def data_session(col, binpath, vmon, rng, tag, scratch):
             col.inconc("title bar not found after reset")
         elif m.group(3) or abs(float(m.group(1)) - lat) > 0.0006 or abs(float(m.group(2)) - lon) > 0.0006:
             col.add("C18", "C18|reset_does_not_return_to_receiver", f"after view controls {seq[-8:]} and reset the title shows {m.group(0)!r}; the receiver is at ({lat:.3f},{lon:.3f})", dict(inp, view_controls=seq))
+    except Inconclusive:
+        # a session that cannot be completed because radar is gone is a finding, not a shrug
+        if sess.p.alive():
+            raise
+        col.add("C17", f"C17|terminated_before_quit|{sess.panic_location()}", "radar died during a C18 session", inp)
+        col.add("C18", f"C18|radar_died_while_showing_data|{sess.panic_location()}", "radar terminated during a session: nothing is shown any more", inp)
     finally:
         sess.close()
 
@@ -249,11 +257,18 @@ def long_count_session(col, binpath, vmon, rng, tag, scratch, n_msgs):
         if rows is None:
             if not sess.p.alive():
                 col.add("C17", f"C17|terminated_before_quit|{sess.panic_location()}", "radar died during a C18 session", inp)
+                col.add("C18", f"C18|radar_died_while_showing_data|{sess.panic_location()}", "radar terminated during a data session: nothing is shown any more", inp)
                 return
             raise Inconclusive("Airplanes table not on screen")
         if not any(r["icao"] == "%06x" % SENTINELS[0] for r in rows):
             raise Inconclusive(f"the sentinel behind {n_msgs} lines did not show up in time")
         rows_equal(col, rows, sim, "", inp, "long_session")
+    except Inconclusive:
+        # a session that cannot be completed because radar is gone is a finding, not a shrug
+        if sess.p.alive():
+            raise
+        col.add("C17", f"C17|terminated_before_quit|{sess.panic_location()}", "radar died during a C18 session", inp)
+        col.add("C18", f"C18|radar_died_while_showing_data|{sess.panic_location()}", "radar terminated during a session: nothing is shown any more", inp)
     finally:
         sess.close()
 
@@ -314,6 +329,12 @@ def stats_expiry_session(col, binpath, rng, tag, scratch):
             col.add("C18", "C18|stats_most_airplanes|expiry", f"Most Airplanes {most}; largest simultaneous count was {max(k1, k2)}", inp)
         if tc != k2:
             col.add("C18", "C18|tab_title_count|expiry", f"tab title says {tc}; {k2} aircraft are tracked", inp)
+    except Inconclusive:
+        # a session that cannot be completed because radar is gone is a finding, not a shrug
+        if sess.p.alive():
+            raise
+        col.add("C17", f"C17|terminated_before_quit|{sess.panic_location()}", "radar died during a C18 session", inp)
+        col.add("C18", f"C18|radar_died_while_showing_data|{sess.panic_location()}", "radar terminated during a session: nothing is shown any more", inp)
     finally:
         sess.close()
 
@@ -412,6 +433,12 @@ def map_session(col, binpath, rng, tag, scratch):
         blue2 = sorted((r, c) for r in range(top + 1, bottom) for c in range(left + 1, right) if cells[r][c][1] == 4 and BRAILLE(cells[r][c][0]))
         if blue2 != sorted(blue):
             col.add("C18", "C18|map_reset_does_not_restore_view", f"aircraft cells after zoom-out + reset {blue2[:8]} differ from before {sorted(blue)[:8]}", inp2)
+    except Inconclusive:
+        # a session that cannot be completed because radar is gone is a finding, not a shrug
+        if sess.p.alive():
+            raise
+        col.add("C17", f"C17|terminated_before_quit|{sess.panic_location()}", "radar died during a C18 session", inp)
+        col.add("C18", f"C18|radar_died_while_showing_data|{sess.panic_location()}", "radar terminated during a session: nothing is shown any more", inp)
     finally:
         sess.close()
 
